@@ -52,8 +52,11 @@ theorem messages :
     msgMinLen = strOf "Minimum substring length must be greater than zero" := by decide
 
 /-- **C07 (totality, partial)** with at least one anchor in place the only way `RegExp::from` can fail
-in the model is the fuel of the refinement loop (shown unreachable separately, see `Dfa` lemmas);
-no regex is compiled, no index is taken that could be out of range -/
+in the model is the fuel of the refinement loop (shown unreachable: `fuel_site_dead`); no regex is compiled.  Scope: the model has two
+explicit failure sites (this one and the verbose `unwrap`); where the Rust code indexes or unwraps elsewhere (`first()`/`last()` of a
+run of a character class, `unwrap` on an `Option` that is `Some` by construction, the fuel of the repetition search) the model is total
+by a default (`headD`, `getD`) — those sites are not covered by this theorem but by the correspondence, where a panic of the code is
+a reported failure (DESIGN §9) -/
 theorem anchored_build_sites (cfg : Config) (env : Env) (ws : List Str) (h : ¬ (cfg.noStart = true ∧ cfg.noEnd = true))
     (e : Panic) (he : regExpFrom cfg env ws = .error e) : e = .index "minimize: fuel" := by
   unfold regExpFrom at he
@@ -117,7 +120,8 @@ theorem anchored_build_total (cfg : Config) (env : Env) (ws : List Str) (h : ¬ 
     exact absurd hr (fuel_site_dead cfg env ws)
 
 /-- **C07 (totality, any anchors, not verbose)** outside verbose mode the model of `RegExp::from` returns for every configuration —
-both anchors disabled included: the self-check compiles its candidates with `Regex::new(..).ok()` and never unwraps -/
+both anchors disabled included: the self-check compiles its candidates with `Regex::new(..).ok()` and never unwraps.  (What is shown
+dead are the model's explicit failure sites, see `anchored_build_sites` for the scope.) -/
 theorem nonverbose_build_total (cfg : Config) (env : Env) (ws : List Str) (hv : cfg.verb = false) :
     ∃ st, regExpFrom cfg env ws = .ok st := by
   cases hr : regExpFrom cfg env ws with
@@ -161,7 +165,10 @@ tab or form feed (`hvt`; `Display for Expression` leaves U+000B and U+000C unesc
 print → parse theorems are about the escaped text).  The text compiled there is the verbose text of the expression with its line breaks
 removed (`drop_fmtExpr`: that is the text printed without verbose mode, for every expression) and the model of `Regex::new` accepts it
 (`parse_exprR`: the bare text of a well-formed expression — no anchors, no group around a top-level alternation).  What is missing for
-the full statement: the two excluded characters and `-e` with surrogate pairs; those inputs are compared per input. -/
+the full statement: the two excluded characters and `-e` with surrogate pairs; those inputs are compared per input.  Note that `hvt`
+speaks about the text of the first candidate, an internal object (it holds whenever no test case contains U+000B or U+000C, which is
+not proved here), and that the bound of 1000 graphemes per test case is asked for without `-r` as well (it comes with the `-r` print →
+parse theorem that is reused) -/
 theorem verbose_unanchored_build_total_partial (cfg : Config) (hsur : cfg.sur = false)
     (hmr : cfg.rep = true → 1 ≤ cfg.minRep) (env : Env) (ws : List Str)
     (hseg : ∀ w ∈ storedCases cfg env ws, SegOK env w)
@@ -237,5 +244,29 @@ theorem component_texts :
     Gen.strHyphen = strOf "-" ∧ Gen.strCapturedLeftParen = strOf "(" ∧ Gen.strUncapturedLeftParen = strOf "(?:" ∧
     Gen.strRightParen = strOf ")" ∧ Gen.strStar = strOf "*" ∧ Gen.strQuestion = strOf "?" ∧
     Gen.strCaret = strOf "^" ∧ Gen.strDollar = strOf "$" := by decide
+
+/-! ## defaults of the printer model that stand for an index or `unwrap` of the code -/
+
+/-- `format_character_class` takes `first()`/`last()` of a run only in the branch for runs of more than two code points, and
+`Display for Grapheme` looks at `chars[0]` only behind `chars.len() == 1`: where the model writes `headD`/`getLastD` the default is
+never the value (the remaining defaults of the model — `sideValue`, `classOf`, `pickMin`, the fuel of the repetition search — are not
+covered by a theorem: DESIGN §9) -/
+theorem printer_defaults_unreachable :
+    (∀ r : List Nat, ¬ r.length ≤ 2 → r.head? = some (r.headD 0) ∧ r.getLast? = some (r.getLastD 0)) ∧
+    (∀ chars : List Str, (chars.length == 1) = true → chars.head? = some (chars.headD [])) := by
+  constructor
+  · intro r hr
+    cases r with
+    | nil => simp at hr
+    | cons a t =>
+      refine ⟨rfl, ?_⟩
+      rw [List.getLastD_eq_getLast?]
+      cases h : (a :: t).getLast? with
+      | none => simp at h
+      | some x => rfl
+  · intro chars h
+    cases chars with
+    | nil => simp at h
+    | cons a t => rfl
 
 end Grexv.Props.C07
